@@ -84,7 +84,7 @@ def readyHooks (app met : Bool) : Nat → List HB → List Ev
 
 def behAt (beh : List HB) (i : Nat) : HB := beh.getD i .ok
 
-def reloadFails (b : HB) : Bool := b == .err || b == .panic
+def reloadFails (b : HB) : Bool := b == .err || b == .panic || b == .block
 
 /-- number of reload hooks that run in a round: up to and including the first that fails -/
 def ranFrom (beh : List HB) : Nat → Nat → Nat
@@ -105,6 +105,7 @@ def lastBeh (beh : List HB) (n : Nat) : HB :=
 def roundRes (fx : Fixes) (beh : List HB) (n : Nat) : RRes :=
   match lastBeh beh n with
   | .err => .err
+  | .block => .err
   | .panic => if fx.d then .err else .panic
   | _ => .ok
 
@@ -130,9 +131,12 @@ def roundStep (fx : Fixes) (n : Nat) (st : Loop) (r : Nat) (rd : Round) : Loop :
   else
     let k := ran rd.beh n
     let evs := reloadEvs r k 0
+    -- the stop signal arrives inside hook j: because the scenario says so, or because the last hook of the
+    -- round is one that waits for its context (the signal is what ends its wait)
+    let blockCut : Option Nat := if lastBeh rd.beh n == .block then some (2 * (k - 1) + 1) else none
     let cut : Option Nat := match rd.cancelAt with
-      | some j => if j < k then some (2 * j + 1) else none
-      | none => none
+      | some j => if j < k then some (2 * j + 1) else blockCut
+      | none => blockCut
     match rd.trig, cut with
     | .hup, none =>
       { st with pre := st.pre ++ evs, dead := roundPanics fx rd.beh n, res := st.res ++ [.na] }
